@@ -73,6 +73,7 @@ func profileByName(name string) Profile {
 		p.W["restart"] = 2
 		p.W["giveback"] = 8
 		p.W["indwrite"] = 10
+		p.W["oneleft"] = 8
 		p.W["twin"] = 3
 		p.MaxWrite = 60000
 		p.Fill = true
@@ -116,6 +117,15 @@ func profileByName(name string) Profile {
 	case "hostile": // C11: arbitrary argument values on top of a live tree
 		p.W = map[string]int{"hostile": 70, "create": 8, "mkdir": 5, "write": 8, "symlink": 2, "remove": 2, "rename": 3, "restart": 1, "selfmove": 3, "stale": 3}
 		p.Steer["dirmove"] = false
+	case "toobig": // C09: requests that are refused only when the journal turns them down
+		p.W["hugesymlink"] = 10
+		p.W["bigwrite"] = 4
+		p.W["symlink"] = 5
+		p.W["remove"] = 8
+		p.W["restart"] = 2
+	case "longnames": // C10: directories full of names near the announced limit, caches rebuilt again and again
+		p.W = map[string]int{"create": 50, "mkdir": 1, "symlink": 3, "lookup": 14, "restart": 5, "twin": 5, "remove": 4, "rename": 6, "stale": 2, "badname": 3, "readdirplus": 2, "readdir": 2, "getattr": 2}
+		p.Steer["longnames"] = true
 	case "names": // namespace heavy
 		p.W["write"] = 3
 		p.W["read"] = 2
@@ -210,6 +220,7 @@ func runSeq(idx int, seed int64, nops int, size uint64, prof string, unstable bo
 		fmt.Fprintln(of, o.Sym())
 		rep := r.Step(o)
 		g.Observe(o, rep)
+		g.free, g.haveFree = r.srv.VerifState().Balloc.NumFree(), true
 	}
 	if lazy {
 		o := Op{Id: 5900000, Proc: "idle"}
